@@ -41,6 +41,10 @@ CHECKS = {
    text="Ordered.tla (Journal machine: seek to first t >= A, next() until the first entry beyond B, with the upper-bound mode measured on the real reader) is checked by TLC against the declarative inclusive window for all monotone sequences with ties and all bounds; on the code, for every one of the ten renderings, the Print events (entry instants in order) must equal `journalctl --file -o json` restricted to the window, with bounds before / exactly on / 1 microsecond around actual entry times and A = B, for plain and compressed journals and several --tz-offset values; `cat` output is compared byte-wise and `export` field-wise (binary-safe) with journalctl.",
    note="journalctl/libsystemd of the sandbox is the independent reader; rendering fidelity (export/cat) is differential testing, the model decides order and window only; _BOOT_ID header field of newer journalctl not required.",
    technique="TLA+ model checking (TLC) + differential replay against journalctl"),
+ "C05": dict(engine="Stream", category="model_checking", design_ref="DESIGN.md §6 C05",
+   text="Stream.tla models block assembly from decoder chunks of arbitrary sizes with the look-behind drop; TLC checks for all chunkings, sizes and legal request sequences that every stored/answered block holds exactly its byte range, nothing is lost or duplicated, and a legal caller never needs a dropped block. On the code, BlockReader::read_block over real gz/bz2/xz/lz4 containers (levels, header fields, multi-block bz2, lz4 block sizes/linked/checksums) must return the plain slices at every block-size class and the size learned up front must equal the decoded size; end-to-end the stdout of every stored form (incl. tar ustar/gnu/pax with 1..4 members) must equal the plain file's for text and accounting records with/without a window at several --blocksz, and for the shipped evtx/journal forms.",
+   note="Single-stream files only; compressor parameters limited to python gzip/bz2/lzma/tarfile and lz4_flex; one evtx file and the shipped journals.",
+   technique="TLA+ model checking (TLC) of chunk assembly + slice-exact replay on real containers + plain-vs-stored differential runs"),
 }
 NA_REASON = "check not built yet in this session (work in progress; will be claimed when its machinery exists)"
 
@@ -69,6 +73,7 @@ manifest = {
            "add_only": True},
  "engines": [
    {"name": "TextLog", "path": "spec/TextLog.tla", "serves_properties": ["C02", "C12", "C03", "C17", "C11"], "kind_free_text": "TLA+ specification of lines/messages/reader API; BlockZero.tla transcribes the block-zero acceptance"},
+   {"name": "Stream", "path": "spec/Stream.tla", "serves_properties": ["C05"], "kind_free_text": "decoder chunk assembly / look-behind drop"},
    {"name": "Ordered", "path": "spec/Ordered.tla", "serves_properties": ["C08", "C09", "C10", "C03"], "kind_free_text": "collect / window / key-ordered emission for record files, evtx, journal"},
    {"name": "BinSearch", "path": "spec/BinSearch.tla", "serves_properties": ["C03"], "kind_free_text": "transcription of the datetime binary search + window walk; TraceBinSearch.tla validates Probe traces"},
    {"name": "S4Run", "path": "spec/S4Run.tla", "serves_properties": ["C01", "C06", "C07", "C18", "C19"], "kind_free_text": "TLA+ specification of workers/channels/coordinator/signal handler/temp files; TraceS4Run.tla validates hook traces; SimS4Run.tla emits behaviours for replay"},
